@@ -17,6 +17,10 @@ Trusted base added by these units (on top of contracts/lib/bigstub.rs + ratio_ty
   contracts/lib/ratio2_pow_stubs.rs  UBig::{sqr, cubic}, IBig::{sqr (a UBig), cubic, pow}: exact powers.
   contracts/lib/ratio2_eq_stubs.rs  (unit ratio_eq only, instead of bigstub) UBig/IBig abstract with `==` comparing
                              the values, IBig::abs_eq comparing magnitudes; Repr/RBig/Relaxed struct mirrors.
+  contracts/lib/ratio2_ctor_stubs.rs  IBig::from_parts_const, UBig::from_dword (value of the double word, signed);
+                             RBig::ZERO / Relaxed::ZERO are 0/1; u128::trailing_zeros (2^r divides n, r < 128 for n != 0).
+  contracts/lib/ratio2_inv_stubs.rs  Inverse trait mirrored; `Inverse for Repr` with the contract proved in unit ratio_inv
+                             (second copy of that text); Clone for Repr keeps both parts.
 `%` is specified as dashu-ratio documents and tests it (rational/tests/div.rs: -1/2 % 1/3 == 1/6): the remainder of the
 division with the quotient rounded to the nearest integer, ties away from zero (|r| <= |rhs|/2) -- NOT the truncating
 remainder.
@@ -28,11 +32,18 @@ VERUS = {
     'ratio_from_float': {'file': 'ratio_from_float.rs', 'w32': False},
     'ratio_pow': {'file': 'ratio_pow.rs', 'w32': False},
     'ratio_eq': {'file': 'ratio_eq.rs', 'w32': False},
+    'ratio_ctor': {'file': 'ratio_ctor.rs', 'w32': False},
+    'ratio_inv_fwd': {'file': 'ratio_inv_fwd.rs', 'w32': False},
 }
 
 PROP_UNITS = {
-    'C04': {'verus': ['ratio_rem', 'ratio_int_ops', 'ratio_from_float', 'ratio_pow'],
-            'undecided': ['sqr / cubic / pow of Repr, RBig, Relaxed: proved (numerator and denominator are the exact powers, '
+    'C04': {'verus': ['ratio_rem', 'ratio_int_ops', 'ratio_from_float', 'ratio_pow', 'ratio_ctor', 'ratio_inv_fwd'],
+            'undecided': ['Inverse for RBig / &RBig / Relaxed / &Relaxed: proved over the contract of Inverse for Repr (unit '
+                          'ratio_inv), which lib/ratio2_inv_stubs.rs repeats for the callers',
+                          'constructors: RBig/Relaxed from_parts_signed and from_parts_const (the const Euclid loop on double '
+                          'words, unbounded proof) are proved exact and, for RBig, canonical; the constants ZERO/ONE/NEG_ONE, '
+                          'from_static_words, Clone/Default and the parsers are not under contract',
+                          'sqr / cubic / pow of Repr, RBig, Relaxed: proved (numerator and denominator are the exact powers, '
                           'canonical operands give canonical results) over the stub contracts of IBig/UBig sqr, cubic, pow',
                           'TryFrom<dashu_float::Repr<B>> for Repr / RBig / Relaxed: proved (exact value m * B^e, RBig canonical, '
                           'infinities -> OutOfBounds) for any base B >= 2 and exponent > isize::MIN; the instances are bound to '
@@ -60,5 +71,5 @@ PROP_UNITS = {
                           'equally given that equal integers do (integer layer) -- the Hasher itself is not modelled',
                           'repr_cmp_ubig / repr_cmp_ibig / repr_cmp_fbig (comparison with integers and floats through '
                           'f32 log2_bounds estimates): not under contract']},
-    'C16': {'verus': ['ratio_rem', 'ratio_int_ops', 'ratio_from_float', 'ratio_pow'], 'undecided': []},
+    'C16': {'verus': ['ratio_rem', 'ratio_int_ops', 'ratio_from_float', 'ratio_pow', 'ratio_ctor', 'ratio_inv_fwd'], 'undecided': []},
 }
